@@ -65,4 +65,6 @@ MUTANTS = [
                 other._magnitude,
                 False,""", expect="PlainQuantity.__eq__|comparison"),
  dict(id="C05-benign-eq-reorder-guard", property="C05", file=PQ, kind="benign", old="            self._is_multiplicative\n            and other._is_multiplicative\n            and eq(self._magnitude, 0, True)", new="            other._is_multiplicative\n            and self._is_multiplicative\n            and eq(self._magnitude, 0, True)", expect=""),
+ dict(id="C05-ito-carries-memo-key", property="C05", file=PQ, old="        self._magnitude = self._convert_magnitude(other, *contexts, **ctx_kwargs)\n        self._units = other\n", new="        self._magnitude = self._convert_magnitude(other, *contexts, **ctx_kwargs)\n        if self._dimensionality_units is self._units:\n            self._dimensionality_units = other\n        self._units = other\n", expect="Quantity:_dimensionality_units|written-by"),
+ dict(id="C05-benign-ito-invalidates-memo-key", property="C05", file=PQ, kind="benign", old="        self._magnitude = self._convert_magnitude(other, *contexts, **ctx_kwargs)\n        self._units = other\n", new="        self._magnitude = self._convert_magnitude(other, *contexts, **ctx_kwargs)\n        self._dimensionality_units = None\n        self._units = other\n", expect=""),
 ]
